@@ -4,6 +4,8 @@
 package main
 
 import (
+	"sync"
+	"crypto/sha512"
 	"bytes"
 	"database/sql"
 	"encoding/gob"
@@ -32,6 +34,10 @@ func newStoreWorld() *vStoreWorld {
 	w := newWorld(vWorldOpts{CertCfg: []string{"password"}, WebUICfg: []string{"password"}, AdminUsers: []string{"root"}})
 	w.st.Config.Base.EnableLocalTOTP = true
 	w.pw.pw["root"] = "pw-root"
+	// self-service bootstrap OTPs are on (a login of a user without tokens mails one and stores it in the profile)
+	w.st.Config.Base.AllowSelfServiceBootstrapOTP = true
+	w.st.Config.Email.Domain = "example.com"
+	w.st.emailManager = &vFakeMail{}
 	g := &vStoreWorld{w: w, ver: map[string]int{}, sver: map[string]int{}, tok: newU2FToken("store")}
 	g.prim, g.cache = w.regate()
 	var err error
@@ -48,6 +54,11 @@ func (g *vStoreWorld) profile(u string, v int) *userProfile {
 	enc, err := g.w.st.encryptWithPublicKeys([]byte(vTOTPSecret))
 	vMust(err)
 	p := &userProfile{Username: u, DisplayName: fmt.Sprintf("v%d", v), UserHasRegistered2ndFactor: true, WebauthnID: 77}
+	if u == "carol" {
+		// a user who has not registered any token yet
+		p.UserHasRegistered2ndFactor = false
+		return p
+	}
 	p.U2fAuthData = map[int64]*u2fAuthData{1: {Enabled: true, Name: "t", Registration: g.tok.registration(), Counter: uint32(v), CreatedAt: time.Unix(1700000000, 0)}}
 	p.TOTPAuthData = map[int64]*totpAuthData{1: {Enabled: true, Name: "totp", EncryptedSecret: enc, CreatedAt: time.Unix(1700000000, 0)}}
 	p.LastSuccessfullTOTPCounter = int64(v)
@@ -111,7 +122,7 @@ func (g *vStoreWorld) project() map[string]interface{} {
 func (g *vStoreWorld) step(a map[string]interface{}) map[string]interface{} {
 	st := g.w.st
 	op, u := vStr(a, "op"), vStr(a, "user")
-	out := map[string]interface{}{"ok": true, "panic": false, "wrote": 0, "readback": 0, "refused": false, "authserved": false, "note": ""}
+	out := map[string]interface{}{"ok": true, "panic": false, "wrote": 0, "readback": 0, "refused": false, "authserved": false, "note": "", "primchanged": false}
 	defer func() {
 		if p := recover(); p != nil {
 			out["panic"] = true
@@ -128,7 +139,11 @@ func (g *vStoreWorld) step(a map[string]interface{}) map[string]interface{} {
 		if err == nil && ok && !fromCache {
 			out["readback"] = vVersionOf(vGobOf(p))
 			// token data must survive too
-			if len(p.U2fAuthData) != 1 || p.U2fAuthData[1].Registration == nil || len(p.TOTPAuthData) != 1 || p.LastSuccessfullTOTPCounter != int64(v) {
+			if u == "carol" {
+				if len(p.U2fAuthData) != 0 || p.UserHasRegistered2ndFactor {
+					out["readback"] = -2
+				}
+			} else if len(p.U2fAuthData) != 1 || p.U2fAuthData[1].Registration == nil || len(p.TOTPAuthData) != 1 || p.LastSuccessfullTOTPCounter != int64(v) {
 				out["readback"] = -2
 			}
 		} else {
@@ -207,6 +222,24 @@ func (g *vStoreWorld) step(a map[string]interface{}) map[string]interface{} {
 		w := g.w
 		ck := map[string]string{authCookieName: w.mintCookie(u, AuthTypePassword|AuthTypeU2F, 0)}
 		adm := map[string]string{authCookieName: w.mintCookie("root", AuthTypePassword|AuthTypeU2F, 0)}
+		digest := func() string {
+			h := sha512.New()
+			rows, err := g.rawP.Query("select username, profile_data from user_profile order by username")
+			if err != nil {
+				return "err"
+			}
+			defer rows.Close()
+			for rows.Next() {
+				var n string
+				var b []byte
+				rows.Scan(&n, &b)
+				h.Write([]byte(n))
+				h.Write(b)
+			}
+			return fmt.Sprintf("%x", h.Sum(nil))
+		}
+		before := digest()
+		defer func() { out["primchanged"] = digest() != before }()
 		reqs := []vReq{
 			{Method: "POST", Path: totpTokenManagementPath, Cookies: ck, Form: url.Values{"username": {u}, "index": {"1"}, "action": {"Disable"}}},
 			{Method: "POST", Path: u2fTokenManagementPath, Cookies: ck, Form: url.Values{"username": {u}, "index": {"1"}, "action": {"Delete"}}},
@@ -277,4 +310,16 @@ func runC15(t *testing.T, cases []map[string]interface{}, ev *vEvents) {
 			ev.Emit(e)
 		}
 	}
+}
+
+type vFakeMail struct {
+	mu   sync.Mutex
+	sent int
+}
+
+func (m *vFakeMail) SendMail(from string, to []string, msg []byte) error {
+	m.mu.Lock()
+	m.sent++
+	m.mu.Unlock()
+	return nil
 }
